@@ -257,11 +257,15 @@ def check(run, tier):
         if not ok:
             run.finding("FORALL-INDEX", "%s|forall-index" % cfg, "not proven: on the validator's Ok path every transition's local_time_type_index < len(local_time_types) (established: %s; INV failures: %s)" % (est[:1], inv_bad[:2]))
         # ---- DESIGNATION (alphabet and length of every designation stored in a local time type handed out)
-        LT_TYPES = ("tz::timezone::TzAsciiStr", "tz::timezone::LocalTimeType")
-        des_bad = [c for c in res["inv"] if not c.get("ok") and c["type"] in LT_TYPES]
-        des_ok = [c for c in res["inv"] if c.get("ok") and any(t in c.get("types", {}) for t in LT_TYPES)]
+        LT_NAMES = ("TzAsciiStr", "LocalTimeType")  # by final name: the private designation type may live in any module
+
+        def is_lt(path):
+            return path.startswith("tz::") and path.rsplit("::", 1)[-1] in LT_NAMES
+
+        des_bad = [c for c in res["inv"] if not c.get("ok") and is_lt(c["type"])]
+        des_ok = [c for c in res["inv"] if c.get("ok") and any(is_lt(t) for t in c.get("types", {}))]
         run.obligation(not des_bad and len(des_ok) >= 3)
-        run.sample({"rule": "DESIGNATION", "values proven": sum(c["types"].get(t, 0) for c in des_ok for t in LT_TYPES), "roots": len({c["root"] for c in des_ok})})
+        run.sample({"rule": "DESIGNATION", "values proven": sum(n_ for c in des_ok for t, n_ in c["types"].items() if is_lt(t)), "roots": len({c["root"] for c in des_ok})})
         seen_des = set()
         for c in des_bad:
             k = "%s|designation|%s|%s" % (cfg, c["root"], c["problem"].split(" ∈ ")[0][:40])
